@@ -191,4 +191,14 @@ PROPS = {
                                 "epochs, mutants and random bytes; distinct = distinct request lines"),
         "trusted": CODEC_TRUSTED,
     },
+    "C08": {
+        "props_module": "Aldrin.Props.C08",
+        "level": "proof",
+        "run": generic_run("msg", {"frame"}, {"C08"}, {"quick": (20000, 4), "thorough": (150000, 14)}, canon=None, corpus="msg.txt",
+                           rule="Arbitrary-generated messages of all 63 kinds (boundary-biased raw material) serialised by the real code, "
+                                "1-3 byte-level mutations of such frames with and without a repaired length prefix, and random frames; per frame: "
+                                "accept/reject class and the canonical re-serialisation; distinct = distinct frames"),
+        "trusted": ["modelled, not verified: BytesMut as a byte list; the typed Rust message structs are represented generically as "
+                    "(kind, wire fields in order, value) — the mapping of struct fields to wire positions is what the translator reads from the source"],
+    },
 }
